@@ -9,7 +9,7 @@ CONSTANTS
   MaxTicks = 0
   MaxFires = 0
   Api = FALSE
-  Known = {"D11", "D18"}
+  Known = {"D11", "D25"}
   SpinTopics = {}
   BufCap = 1
   RespCap = 1
